@@ -2,15 +2,45 @@
     implementation's own outputs ([holds], specification side only: [Spec.read_document], [Spec.expected_ok]). *)
 From V Require Import Base.Util Gql.Ast C12.Model C12.Spec.
 
+(** An emitted text as the harness carries it.  The same definition objects recur in many texts of one
+    case, so the harness sends every distinct piece once ([table]) and a text
+    [{"kind":"Document","definitions":[P1,P2,…]}] as the indices of its pieces; it has verified that
+    re-assembly gives back the exact text (otherwise it sends the text raw).  [decode_text] is that re-assembly. *)
+Inductive text := TPieces (idx : list N) | TRaw (t : str).
+
+Definition text_prefix := Eval vm_compute in s "{""kind"":""Document"",""definitions"":[".
+Definition text_suffix := Eval vm_compute in s "]}".
+
+Fixpoint join_pieces (table : list str) (idx : list N) (first : bool) : str :=
+  match idx with
+  | [] => []
+  | i :: r => (if first then [] else [44%N]) ++ nth (N.to_nat i) table [] ++ join_pieces table r false
+  end.
+
+Definition decode_text (table : list str) (t : text) : str :=
+  match t with
+  | TPieces idx => text_prefix ++ join_pieces table idx true ++ text_suffix
+  | TRaw x => x
+  end.
+
 (** what a printer run produced: the JSON chunks it wrote (one per definition, in order), or a panic *)
-Inductive outcome := OOk (texts : list str) | OPanic (msg : str).
+Inductive outcome_of (T : Type) := OOk (texts : list T) | OPanic (msg : str).
+Arguments OOk {T} texts. Arguments OPanic {T} msg.
+Definition outcome := outcome_of str.
+
+Definition decode_outcome (table : list str) (o : outcome_of text) : outcome :=
+  match o with OOk ts => OOk (map (decode_text table) ts) | OPanic m => OPanic m end.
+
+(** positions play no role in C12/Model.v; the harness replaces every position by this constant *)
+Definition p_ : pos := pos0.
 
 Inductive case :=
 | CDoc (accepted : bool)          (* the real [check] raised no diagnostic for the document (false also when no schema was used) *)
        (d : opdoc)                (* the document as the real parser (+ resolve_operation_extensions, + AST edits) produced it *)
-       (js : outcome)             (* print_js_for_operation_document through a recording SourceMapWriter *)
-       (ts : option outcome)      (* print_types_for_operation_document with print_values = true (standalone-ts mode), if run *)
-       (whole : str)              (* verif_hooks::print_to_json_string(&document) *)
+       (table : list str)         (* distinct pieces of the texts below *)
+       (js : outcome_of text)     (* print_js_for_operation_document through a recording SourceMapWriter *)
+       (ts : option (outcome_of text)) (* print_types_for_operation_document with print_values = true (standalone-ts mode), if run *)
+       (whole : text)             (* verif_hooks::print_to_json_string(&document) *)
        (names : list (list str)). (* verif_hooks::fragment_names_in_selection_set for every definition, with the printer's map *)
 
 Definition outcome_eqb (a b : outcome) : bool :=
@@ -46,7 +76,10 @@ Fixpoint model_names (defs todo : list execdef) : option (list (list str)) :=
 
 Definition agree (c : case) : bool :=
   match c with
-  | CDoc _ d js ts whole names =>
+  | CDoc _ d table js0 ts0 whole0 names =>
+      let js := decode_outcome table js0 in
+      let ts := option_map (decode_outcome table) ts0 in
+      let whole := decode_text table whole0 in
       option_eqb outcome_eqb (model_outcome d) (Some js)
       && (match ts with Some t => option_eqb outcome_eqb (model_outcome d) (Some t) | None => true end)
       && str_eqb (document_text d) whole
@@ -76,7 +109,10 @@ Definition outcome_ok (doc : list adef) (o : outcome) : bool :=
 
 Definition holds (c : case) : bool :=
   match c with
-  | CDoc accepted d js ts whole _ =>
+  | CDoc accepted d table js0 ts0 whole0 _ =>
+      let js := decode_outcome table js0 in
+      let ts := option_map (decode_outcome table) ts0 in
+      let whole := decode_text table whole0 in
       let doc := erase_defs (od_defs d) in
       (* node-for-node: the whole document's JSON denotes the document *)
       (match read_document whole with Some got => leqb adef_eqb got doc | None => false end)
